@@ -141,6 +141,10 @@ func sign(ad *schema.Advertisement, tc *tcase, kt string) error {
 		}
 		return err
 	}
+	// a removal: the entries are signed while the advertisement is not yet one (the entry payload does not cover the flag),
+	// then the removal itself is signed with Sign, which leaves the list alone
+	rm := ad.IsRm
+	ad.IsRm = false
 	if err := ignoreMissingMain(ad.SignWithExtendedProviders(sk, func(string) (crypto.PrivKey, error) { return sk, nil })); err != nil {
 		return err
 	}
@@ -151,6 +155,14 @@ func sign(ad *schema.Advertisement, tc *tcase, kt string) error {
 			return err
 		}
 		ad.ExtendedProvider.Providers[i].Signature = c.ExtendedProvider.Providers[i].Signature
+	}
+	if rm {
+		ad.IsRm = true
+		ep := ad.ExtendedProvider // Sign refuses an advertisement that carries the list: take it off, sign, put it back
+		ad.ExtendedProvider = nil
+		err := ad.Sign(sk)
+		ad.ExtendedProvider = ep
+		return err
 	}
 	return nil
 }
@@ -378,6 +390,7 @@ func Run(args []string) *rep.Report {
 	fs := flag.NewFlagSet("c05", flag.ExitOnError)
 	file := fs.String("cases", "", "ndjson case table exported by TLC")
 	rsaEvery := fs.Int("rsa-every", 400, "run every n-th case with RSA keys as well")
+	allKeys := fs.Bool("all-keys", true, "run every case with Ed25519, secp256k1 and ECDSA keys (false: one of them in rotation)")
 	sweepEvery := fs.Int("sweep-every", 2000, "byte-alteration sweep on every n-th honest case")
 	fs.Parse(args)
 	r := rep.New()
@@ -395,7 +408,12 @@ func Run(args []string) *rep.Report {
 			defer wg.Done()
 			for j := range jobs {
 				tc := j.tc
-				kts := []string{[]string{"ed25519", "secp256k1", "ecdsa"}[j.idx%3]}
+				// every case with every key type whose peer ID embeds the key (Ed25519, secp256k1) or hashes it (ECDSA; RSA sampled):
+				// a rotation by case index can line up with the enumeration order and never give a key type to a class of cases
+				kts := []string{"ed25519", "secp256k1", "ecdsa"}
+				if *allKeys == false {
+					kts = []string{kts[(j.idx+j.idx/7)%3]}
+				}
 				if *rsaEvery > 0 && j.idx%*rsaEvery == 0 {
 					kts = append(kts, "rsa")
 				}
